@@ -774,6 +774,12 @@ qb_ipcs_us_disconnect(struct qb_ipcs_connection *c)
 		qb_ipcc_us_sock_close(c->setup.u.us.sock);
 		qb_ipcc_us_sock_close(c->request.u.us.sock);
 		qb_ipcc_us_sock_close(c->event.u.us.sock);
+		/* the connection can outlive its sockets (references), and
+		 * the numbers will be handed out again */
+		c->setup.u.us.sock = -1;
+		c->request.u.us.sock = -1;
+		c->response.u.us.sock = -1;
+		c->event.u.us.sock = -1;
 	}
 	if (c->state == QB_IPCS_CONNECTION_SHUTTING_DOWN ||
 	    c->state == QB_IPCS_CONNECTION_ACTIVE) {
